@@ -103,7 +103,7 @@ pub fn run() -> Report {
     }
     let mut cases: Vec<(Vec<Op>, u8, u32)> = Vec::new();
     for s in &seqs {
-        for init in 0..3u8 {
+        for init in 0..4u8 {
             for threads in [1u32, 16] {
                 if s.len() == 3 && threads == 16 && !thorough {
                     continue;
@@ -172,6 +172,16 @@ pub fn run() -> Report {
                         }
                     }
                 }
+                // earlier results under the same names and of exactly the SAME LENGTH, with other content (the same range dumped
+                // from another chain or with another coin: equally long hashes, addresses and numbers)
+                3 => {
+                    for (_, files) in &reference {
+                        for (name, content) in files {
+                            let other: Vec<u8> = content.iter().map(|b| match b { b'a' => b'b', b'b' => b'a', b'1' => b'2', b'2' => b'1', x => *x }).collect();
+                            std::fs::write(wk.dump().join(name), other).unwrap();
+                        }
+                    }
+                }
                 _ => {}
             }
             acc.states += 1;
@@ -179,7 +189,7 @@ pub fn run() -> Report {
                 acc.nontrivial.insert(h8(format!("{:?}{}{}", seq, init, threads).as_bytes()));
             }
             if acc.samples.is_empty() && seq.len() == 3 {
-                acc.sample(json!({"sequence": seq.iter().map(|o| format!("{}{}", o.cb, if o.ranged { " -s 1 -e 2" } else { "" })).collect::<Vec<_>>(), "initial_folder_state": match *init { 0 => "empty", 1 => "stale tmp files", _ => "earlier final-named files" }, "threads": threads}));
+                acc.sample(json!({"sequence": seq.iter().map(|o| format!("{}{}", o.cb, if o.ranged { " -s 1 -e 2" } else { "" })).collect::<Vec<_>>(), "initial_folder_state": match *init { 0 => "empty", 1 => "stale tmp files", 3 => "earlier results of the same names and lengths, other content", _ => "earlier final-named files" }, "threads": threads}));
             }
             let fp0 = data_fingerprint(&wk.data());
             for (k, op) in seq.iter().enumerate() {
